@@ -420,6 +420,21 @@ STATUS_LOOP = dict(region='status_loop', file='cmdline/status.c', begin='/* copy
                    epilogue='\t*timemap_p = timemap; *bad_p = bad; *bad_first_p = bad_first; *bad_last_p = bad_last; *count_p = count; *rehash_p = rehash; *unsynced_p = unsynced_blocks; *unscrubbed_p = unscrubbed_blocks;')
 
 
+DUP_FILE = dict(region='dup_file', file='cmdline/dup.c', scope='void state_dup(struct snapraid_state* state)', begin='struct snapraid_hash* hash;', include_begin=True, end='tommy_hashdyn_foreach(&hashset, (tommy_foreach_func*)hash_free);', end_first_after=True, max_lines=40, expect_loops=0, brace_balance=-2,
+                proto='static void region_dup_file(struct snapraid_state *state, tommy_hashdyn *hashset_p, struct snapraid_disk *disk, struct snapraid_file *file, unsigned *count_p, data_off_t *size_p)',
+                prologue='\tunsigned count = *count_p;\n\tdata_off_t size = *size_p;\n\tchar esc_buffer[ESC_MAX], esc_buffer_alt[ESC_MAX];\n\tint once1, once2;\n#define hashset (*hashset_p)\n\tfor (once1 = 0; once1 < 1; ++once1) { for (once2 = 0; once2 < 1; ++once2) { /* the two loops the region text closes */',
+                epilogue='#undef hashset\n\t*count_p = count; *size_p = size;\n\t(void)esc_buffer; (void)esc_buffer_alt;')
+
+
+def dup_obs():
+    D = 'harness/h_dup.c'
+    return [Ob('dup.hash_alloc.hs%d' % hs, D, 'h_dup_hash_alloc', inject=[DUP_FILE], defs={'HS': hs}, unwind=50, small_path=True, timeout=900, mem=6, cost=4, replay=False, kind='bounded', bound='files of at most 3 blocks, hash size %d' % hs,
+               functions=['hash_alloc (cmdline/dup.c)'], note='every block state and recorded hash') for hs in (4,)] + [
+            Ob('dup.hash_compare', D, 'h_dup_compare', inject=[DUP_FILE], unwind=20, small_path=True, timeout=600, mem=6, cost=2, replay=False, functions=['hash_compare (cmdline/dup.c)'], note='every pair of digests'),
+            Ob('dup.file_loop.region', D, 'h_dup_file', inject=[DUP_FILE], unwind=4, small_path=True, timeout=600, mem=6, cost=2, replay=False,
+               functions=['state_dup: per-file body of the loop (cmdline/dup.c, extracted mechanically)'], note='empty / hashed / not hashed file, digest already met or not, every size and running totals')]
+
+
 def status_obs():
     return [Ob('status.summary_loop.region', 'harness/h_status.c', 'h_status_loop', inject=[STATUS_LOOP], unwind=8, small_path=True, timeout=900, mem=6, cost=6, kind='bounded', bound='at most 4 stripes, 2 disks', replay=False,
                functions=['state_status: region "copy the info a temp vector, and count bad/rehash/unsynced blocks" (cmdline/status.c, extracted mechanically)'],
@@ -434,7 +449,7 @@ def c20(tier, seed):
         Ob('esc.shell', E, 'h_esc_shell', ['cmdline/support.c'], unwind=14, timeout=900, mem=6, cost=5, kind='bounded',
            bound='strings of at most 5 bytes, every byte value', functions=['esc_shell / esc_shell_multi (cmdline/support.c)'],
            expect_fail=['esc_shell leaves no TAB or NEWLINE unquoted']),
-    ] + status_obs()
+    ] + status_obs() + dup_obs()
 
 
 STATE_Q_REGION = dict(region='state_q', file='cmdline/state.c', begin="} else if (c == 'Q') {", end="} else if (c == 'N') {", include_begin=True, max_lines=150,
@@ -988,8 +1003,8 @@ PROPS['C18'].update(
 PROPS['C20'].update(
     explanation='The escaping layer of the reports and the bad / unsynced summary of status (state_status per-stripe loop: exact count, first and last position of bad stripes, exact unsynced / rehash / unscrubbed counts): esc_tag is reversible for every string (<= 5 bytes, all byte values), never emits a raw newline / carriage return / colon and only the escapes \\n \\r \\d \\\; esc_shell output read back under POSIX shell quoting rules is the original single word, no blank or metacharacter is left unquoted - EXCEPT tab and newline, which it leaves raw (KNOWN-FINDING, shown with the real binary: `snapraid list` prints a file named a<LF>b on two lines).',
     trusted_base=['POSIX shell quoting rules as transcribed in harness/h_esc.c'],
-    assumptions=['strings bounded to 5 bytes (every escape is per character, independent of position)', 'list / dup / diff / pool bodies (printf + file system over tommy lists) are NOT under an obligation; of status only the per-stripe summary loop is (bounded: 4 stripes, 2 disks)'],
-    not_covered=['list.c, dup.c, pool.c bodies, the rest of status.c (file statistics, scrub age histogram)', 'hash_compare of dup'])
+    assumptions=['strings bounded to 5 bytes (every escape is per character, independent of position)', 'list / diff / pool bodies (printf + file system over tommy lists) are NOT under an obligation; of status only the per-stripe summary loop is (bounded: 4 stripes, 2 disks); of dup the digest construction, the comparison and the per-file loop body are (bounded)'],
+    not_covered=['list.c, pool.c bodies, the rest of status.c (file statistics, scrub age histogram)'])
 MANIFEST_TEXT.update({
     'C15': dict(level_text='The selection rule of every plan and the limit arithmetic are per-call statements and are decided for all inputs (decision table) / all sorted maps up to 8 entries (limits). The per-stripe mark update inside the 700-line scrub loop and liveness are not claimed - hence level other with the exact functions listed.',
                 design_ref='DESIGN.md section 4 C15', level_note='region extraction for the limit computation; qsort assumed; mark-update chain and liveness not covered', technique='CBMC contracts (dfcc replace) + driver on real cmdline/scrub.c, mechanically extracted region'),
